@@ -72,15 +72,16 @@ func checkC16(tier string) *dr.Result {
 			for i := sh; i < len(dom); i += nshard {
 				o := dom[i]
 				e := fsnotify.Event{Name: "n", Op: fsnotify.Op(o)}
+				ef := fsnotify.VerifEvent("n", fsnotify.Op(o), "old") // an event that carries the old name of a rename
 				for _, h := range dom {
 					want := o&h != 0
 					got := fsnotify.Op(o).Has(fsnotify.Op(h))
-					got2 := e.Has(fsnotify.Op(h))
-					evals[sh] += 2
-					if got != want || got2 != want {
+					got2, got3 := e.Has(fsnotify.Op(h)), ef.Has(fsnotify.Op(h))
+					evals[sh] += 3
+					if got != want || got2 != want || got3 != want {
 						mu.Lock()
 						c.bad("has", fmt.Sprintf("Op.Has disagrees with set intersection (e.g. o=%#x h=%#x)", o, h),
-							fmt.Sprintf("Op(%#x).Has(%#x)=%t Event.Has=%t want %t", o, h, got, got2, want), map[string]any{"o": o, "h": h})
+							fmt.Sprintf("Op(%#x).Has(%#x)=%t Event.Has=%t Event.Has (event with an old name)=%t want %t", o, h, got, got2, got3, want), map[string]any{"o": o, "h": h})
 						mu.Unlock()
 					}
 				}
@@ -169,8 +170,26 @@ func checkC16(tier string) *dr.Result {
 	names := []string{"", "a", "/tmp/file", `with "quotes"`, "multi\nline", "tab\there", "bad\xffutf8", "\x00nul", "sp ace", "←", "a ← b", long, "ünï/cödé"}
 	froms := append([]string{}, names...)
 	ops := []uint32{0, 1, 2, 4, 8, 16, 3, 0x1ff, 0x200, 0x109, 128, 256, 0x10000, 0xffff0000}
+	// every byte value on its own and embedded (control characters, DEL, quote, backslash, bytes that are not
+	// UTF-8), and runes Go's %q escapes although they are valid UTF-8
+	var bytewise []string
+	for b := 0; b < 256; b++ {
+		bytewise = append(bytewise, string([]byte{byte(b)}), "a"+string([]byte{byte(b)})+"b")
+	}
+	bytewise = append(bytewise, "nel\u0085", "ls\u2028x", "\ufeffbom", "\u00a0", "\u200b", "\U000e0001", "\ufffd", "\xed\xa0\x80")
+	type pair struct{ n, f string }
+	var pairs []pair
 	for _, n := range names {
 		for _, f := range froms {
+			pairs = append(pairs, pair{n, f})
+		}
+	}
+	for _, bw := range bytewise {
+		pairs = append(pairs, pair{bw, ""}, pair{"n", bw}, pair{bw, bw})
+	}
+	for _, pr := range pairs {
+		n, f := pr.n, pr.f
+		{
 			for _, o := range ops {
 				e := fsnotify.VerifEvent(n, fsnotify.Op(o), f)
 				got, pan := safeString(func() string { return e.String() })
